@@ -63,7 +63,19 @@ def run(m):
         open(f, 'w').write('\n'.join(new))
         ov = os.path.join(d, 'ov.json')
         json.dump({path: f}, open(ov, 'w'))
-        r = subprocess.run(['/verif/bin/turnvc', 'verify', '-overlay', ov, fn], capture_output=True, text=True, timeout=900)
+        targets = [fn] + [h for h in have if h.startswith(fn + '$')]
+        base = fn.split('.')[-1]
+        for h in sorted(have):
+            if h in targets or not (h.startswith(pkg + '.') or ('(' + pkg + '.') in h or ('(*' + pkg + '.') in h):
+                continue
+            # same-package callers: functions whose source mentions the mutated function's name
+            hb = h.split('.')[-1].split('$')[0]
+            m2 = re.search(r'^func (\([^)]*\) )?' + re.escape(hb) + r'\(', '\n'.join(src), re.M)
+            if m2:
+                st0 = m2.start(); en0 = '\n'.join(src).find('\n}\n', st0)
+                if re.search(r'\b' + re.escape(base) + r'\(', '\n'.join(src)[st0:en0]) and hb != base:
+                    targets.append(h)
+        r = subprocess.run(['/verif/bin/turnvc', 'verify', '-overlay', ov] + targets[:8], capture_output=True, text=True, timeout=1500)
         out = r.stdout + r.stderr
         if 'load error' in out or 'ENGINE-ERROR' in out or 'no such function' in out:
             return (i, kind, fn, 'nocompile')
